@@ -623,6 +623,7 @@ int disasm_arm64(
           }
 
           imm = (opcode >> 12) & 0x1ff;
+          if ((imm & 0x100) != 0) { imm |= ~0x1ff; }
           //imm = imm << size;
 
           if (index_type == 1)
